@@ -47,7 +47,7 @@ Step(e) ==
          LET predictedRaise == buffer # << >> /\ (txnOpen \/ ~FlushResult.ok)
              W == IF e.raised THEN wr ELSE [x \in DOMAIN wr \cup {buffer[k].id : k \in 1..Len(buffer)} |->
                                               IF x \in DOMAIN wr THEN wr[x] ELSE buffer[CHOOSE k \in 1..Len(buffer) : buffer[k].id = x]]
-         IN /\ (predictedRaise # e.raised => PrintT(ToJson(<< "DRIFT", Traces[tid].id, l, "flush outcome differs from Store!FlushResult" >>)))
+         IN /\ (e.honest /\ predictedRaise # e.raised => PrintT(ToJson(<< "DRIFT", Traces[tid].id, l, "flush outcome differs from Store!FlushResult" >>)))
             /\ IF e.raised THEN (IF buffer = << >> THEN FlushNoop ELSE /\ txnOpen' = TRUE /\ UNCHANGED << chainT, locT, outT, inT, buffer >>)
                ELSE IF buffer = << >> THEN FlushNoop
                ELSE /\ chainT' = FlushResult.C /\ locT' = FlushResult.L /\ outT' = FlushResult.O /\ inT' = FlushResult.I
